@@ -1,0 +1,198 @@
+//
+// verif.rs
+//
+// Trace hooks for model-based verification of the optimiser. This module is only compiled when
+// the crate is built with `--cfg packing_verif`; a normal build contains none of it.
+//
+// Events are emitted by the optimiser at the points where its registers change. They are
+// collected in a thread local buffer when recording has been switched on by the thread, and
+// additionally appended to the file named by the environment variable PACKING_VERIF_TRACE, one
+// JSON object per line, labelled with a per-thread identifier and sequence number. Floating point
+// values are written as the hexadecimal representation of their bits so nothing is lost.
+
+use std::cell::RefCell;
+use std::fs::{File, OpenOptions};
+use std::io::Write;
+use std::sync::atomic::{AtomicU64, Ordering};
+use std::sync::{Mutex, Once};
+
+#[derive(Clone, Debug, PartialEq)]
+pub enum Event {
+    Start {
+        kt_start: f64,
+        kt_ratio: f64,
+        max_step_size: f64,
+        steps: u64,
+        inner_steps: u64,
+        seed: u64,
+        convergence: Option<f64>,
+        n_basis: usize,
+        score: f64,
+    },
+    Propose {
+        index: usize,
+        before: f64,
+        after: f64,
+        step: f64,
+    },
+    Draw {
+        u: f64,
+    },
+    Decide {
+        score_current: f64,
+        loop_rejections: u64,
+        value: f64,
+        kt: f64,
+    },
+    EndLoop {
+        loop_counter: u64,
+        kt: f64,
+        step_ratio: f64,
+        loop_rejections: u64,
+        convergence_count: u64,
+        early: bool,
+    },
+    Return {
+        early: bool,
+    },
+}
+
+fn hex(value: f64) -> String {
+    format!("\"{:016x}\"", value.to_bits())
+}
+
+impl Event {
+    pub fn to_json(&self) -> String {
+        match self {
+            Event::Start {
+                kt_start,
+                kt_ratio,
+                max_step_size,
+                steps,
+                inner_steps,
+                seed,
+                convergence,
+                n_basis,
+                score,
+            } => format!(
+                "\"ev\":\"start\",\"kt_start\":{},\"kt_ratio\":{},\"max_step_size\":{},\"steps\":{},\"inner_steps\":{},\"seed\":{},\"convergence\":{},\"n_basis\":{},\"score\":{}",
+                hex(*kt_start),
+                hex(*kt_ratio),
+                hex(*max_step_size),
+                steps,
+                inner_steps,
+                seed,
+                match convergence {
+                    Some(c) => hex(*c),
+                    None => String::from("null"),
+                },
+                n_basis,
+                hex(*score),
+            ),
+            Event::Propose {
+                index,
+                before,
+                after,
+                step,
+            } => format!(
+                "\"ev\":\"propose\",\"index\":{},\"before\":{},\"after\":{},\"step\":{}",
+                index,
+                hex(*before),
+                hex(*after),
+                hex(*step),
+            ),
+            Event::Draw { u } => format!("\"ev\":\"draw\",\"u\":{}", hex(*u)),
+            Event::Decide {
+                score_current,
+                loop_rejections,
+                value,
+                kt,
+            } => format!(
+                "\"ev\":\"decide\",\"score_current\":{},\"loop_rejections\":{},\"value\":{},\"kt\":{}",
+                hex(*score_current),
+                loop_rejections,
+                hex(*value),
+                hex(*kt),
+            ),
+            Event::EndLoop {
+                loop_counter,
+                kt,
+                step_ratio,
+                loop_rejections,
+                convergence_count,
+                early,
+            } => format!(
+                "\"ev\":\"endloop\",\"loop_counter\":{},\"kt\":{},\"step_ratio\":{},\"loop_rejections\":{},\"convergence_count\":{},\"early\":{}",
+                loop_counter,
+                hex(*kt),
+                hex(*step_ratio),
+                loop_rejections,
+                convergence_count,
+                early,
+            ),
+            Event::Return { early } => format!("\"ev\":\"return\",\"early\":{}", early),
+        }
+    }
+}
+
+thread_local! {
+    static BUFFER: RefCell<Option<Vec<Event>>> = RefCell::new(None);
+    static THREAD: RefCell<(u64, u64)> = RefCell::new((0, 0));
+}
+
+static NEXT_THREAD: AtomicU64 = AtomicU64::new(1);
+static FILE_INIT: Once = Once::new();
+static mut FILE: Option<Mutex<File>> = None;
+
+fn file_sink() -> Option<&'static Mutex<File>> {
+    FILE_INIT.call_once(|| {
+        if let Ok(path) = std::env::var("PACKING_VERIF_TRACE") {
+            if let Ok(file) = OpenOptions::new().create(true).append(true).open(path) {
+                unsafe {
+                    FILE = Some(Mutex::new(file));
+                }
+            }
+        }
+    });
+    #[allow(static_mut_refs)]
+    unsafe {
+        FILE.as_ref()
+    }
+}
+
+/// Start collecting the events emitted on this thread, discarding any collected before.
+pub fn start_recording() {
+    BUFFER.with(|b| *b.borrow_mut() = Some(Vec::new()));
+}
+
+/// Stop collecting events on this thread and return those collected since `start_recording`.
+pub fn take_recording() -> Vec<Event> {
+    BUFFER.with(|b| b.borrow_mut().take().unwrap_or_default())
+}
+
+pub fn emit(event: Event) {
+    if let Some(sink) = file_sink() {
+        let (thread, seq) = THREAD.with(|t| {
+            let mut t = t.borrow_mut();
+            if t.0 == 0 {
+                t.0 = NEXT_THREAD.fetch_add(1, Ordering::SeqCst);
+            }
+            t.1 += 1;
+            *t
+        });
+        let line = format!(
+            "{{\"thread\":{},\"seq\":{},{}}}\n",
+            thread,
+            seq,
+            event.to_json()
+        );
+        if let Ok(mut file) = sink.lock() {
+            let _ = file.write_all(line.as_bytes());
+        }
+    }
+    BUFFER.with(|b| {
+        if let Some(buffer) = b.borrow_mut().as_mut() {
+            buffer.push(event);
+        }
+    });
+}
